@@ -331,8 +331,8 @@ class LeaderNode(Entity):
                 self._versions[key] = incoming
                 yield from self._store.put(key, value)
                 self._merkle.update(key, value)
-            elif _vc_dominates(existing_vc, incoming_vc):
-                # Existing is newer — discard
+            elif _vc_dominates(existing_vc, incoming_vc) or _same_version(existing, incoming):
+                # Existing is newer (or is this very write, seen before) — discard
                 pass
             else:
                 # Concurrent — conflict!
@@ -423,7 +423,9 @@ class LeaderNode(Entity):
                     yield from self._store.put(key, remote_vv.value)
                     self._merkle.update(key, remote_vv.value)
                     self._anti_entropy_keys_repaired += 1
-                elif not _vc_dominates(existing_vc, remote_vc):
+                elif not _vc_dominates(existing_vc, remote_vc) and not _same_version(
+                    existing, remote_vv
+                ):
                     self._conflicts_detected += 1
                     winner = self._resolver.resolve(key, [existing, remote_vv])
                     self._conflicts_resolved += 1
@@ -498,7 +500,9 @@ class LeaderNode(Entity):
                     yield from self._store.put(key, remote_vv.value)
                     self._merkle.update(key, remote_vv.value)
                     self._anti_entropy_keys_repaired += 1
-                elif not _vc_dominates(existing_vc, remote_vc):
+                elif not _vc_dominates(existing_vc, remote_vc) and not _same_version(
+                    existing, remote_vv
+                ):
                     # Concurrent — resolve
                     self._conflicts_detected += 1
                     winner = self._resolver.resolve(key, [existing, remote_vv])
@@ -510,6 +514,15 @@ class LeaderNode(Entity):
                         self._anti_entropy_keys_repaired += 1
 
         return None
+
+
+def _same_version(a: VersionedValue, b: VersionedValue) -> bool:
+    """Check if ``a`` and ``b`` are one and the same write (not two concurrent ones)."""
+    return (
+        a.writer_id == b.writer_id
+        and a.timestamp == b.timestamp
+        and (a.vector_clock or {}) == (b.vector_clock or {})
+    )
 
 
 def _vc_dominates(a: dict[str, int], b: dict[str, int]) -> bool:
